@@ -8,7 +8,8 @@
        GENERATED from the source: c05_dim_cartesian3, `dim = 2 if latlon else 3` since fix 4eed51d9),
      Grid.face_areas (cache in _ds), Grid.calculate_total_face_area, Grid.face_jacobian
      (compute_face_areas returns fresh arrays and stores nothing; face_areas stores the default
-     computation in _ds and its jacobian in _face_jacobian).
+     computation in _ds and its jacobian in _face_jacobian; face_jacobian computes the default
+     jacobian itself when it is not known and leaves face_areas alone).
    The arithmetic is abstracted in a record of operations (c05_ops): the SAME definitions are
    instantiated with 2^-100 fixed-point integers (c05_fx, executable, extracted, compared with the
    implementation) and, in Proofs/C05_proofs.v, with the real numbers (theorems needing sqrt).
@@ -258,14 +259,15 @@ Section Num.
           | None => (s, C05_raise)
           end
       | C05_get_areas => c05_read_areas s
-      | C05_get_jacobian =>                         (* if self._face_jacobian is None: _ = self.face_areas *)
+      | C05_get_jacobian =>
+          (* if self._face_jacobian is None: _, self._face_jacobian = self.compute_face_areas()
+             (fix 3e2684f4: the stored face_areas are neither read nor written) *)
           match c05_jac s with
           | Some j => (s, C05_areas j)
           | None =>
-              let (s', out) := c05_read_areas s in
-              match out with
-              | C05_raise => (s', C05_raise)
-              | _ => match c05_jac s' with Some j => (s', C05_areas j) | None => (s', C05_none) end
+              match c05_compute fixdim conv g c05_default_rule c05_default_order c05_default_latlon with
+              | Some r => ({| c05_cached := c05_cached s; c05_jac := Some (map snd r) |}, C05_areas (map snd r))
+              | None => (s, C05_raise)
               end
           end
       end.
